@@ -103,6 +103,9 @@ def outcome(cfg):
 
 
 def check(run):
+    import genlib
+    genlib.validate_cfg_logic(run, "dup_pairs", n=run.n(300, 4000))
+    genlib.validate_cfg_logic(run, "dup_table_forms", n=run.n(300, 4000))
     run.rule = ("3 base models (pair with custom and table forms, EAM, Finnis-Sinclair) x every duplication operator applied to every entry, duplicate placed before and after the original: "
                 "same key, all single-blank/tab whitespace variants of the key, reversed pair (with/without blanks), custom form with another parameter list, three spellings of a "
                 "[Table-Form:name] header, table form named like a custom / built-in form; plus duplicates introduced through `additional` items and --add-item; "
